@@ -51,6 +51,10 @@ class C17(Check):
                              runner="run_q"))
         out.append(Space("argument-positions", {"generator": "operator calls directly in argument positions"},
                          _arg_cases, runner="run_struct"))
+        out.append(Space("receivers", {"generator": "every operator on every kind of receiver expression"},
+                         _receiver_cases, runner="run_struct"))
+        out.append(Space("pkg<=7 forms=fm", qspaces.describe("pkg", 3, 7, ("e",), ("f", "m")),
+                         (lambda: qspaces.enumerate_sources("pkg", 3, 7 if Q else 8, ("e",), ("f", "m"))), runner="run_q"))
         return out
 
     def _transform(self, q):
@@ -79,6 +83,17 @@ class C17(Check):
         r2 = self._transform(copy.deepcopy(r))
         if ast.dump(r2) != ast.dump(r):
             res["viol"].append({"kind": "not-idempotent", "canon": canon, "msg": ast.unparse(r2)[:200]})
+        # converting the very same input object once more must give the same query and leave the first result alone
+        d1 = ast.dump(r)
+        try:
+            r3 = self._transform(qc)
+            if ast.dump(r3) != d1:
+                res["viol"].append({"kind": "second-conversion-of-the-same-object-differs", "canon": canon,
+                                    "msg": f"{ast.unparse(r3)[:150]} vs {ast.unparse(ref)[:150]}"})
+            elif ast.dump(r) != d1:
+                res["viol"].append({"kind": "first-result-changed-by-a-later-conversion", "canon": canon, "msg": ast.unparse(r)[:150]})
+        except Exception as e:
+            res["viol"].append({"kind": f"second-conversion-raised:{type(e).__name__}", "canon": canon, "msg": str(e)[:100]})
         return r
 
     def run_q(self, src):
@@ -134,6 +149,24 @@ def _arg_cases():
                 f"Select(ds, lambda e: e.jets.Select(lambda j: {i}).Count())",
             ]
     return sorted(set(out))
+
+
+RECEIVERS = ["x", "x.y", "x.y.z", "f(x)", "x.m()", "x[0]", "x['k']", "x[1:2]", "(a if c else b)", "(a, b)[0]", "[a, b][1]",
+             "{'k': s}['k']", "{'k': s}.k", "(lambda s: s)(x)", "(-x)", "(a + b)", "(a or b)", "(not a)", "(a > b)", "'s'", "(1)",
+             "[j for j in x]", "(j for j in x)", "f(x).g(y)[0].h", "x.y[0].z(1)", "(x, y)", "[x]", "{'k': x}"]
+
+
+def _receiver_cases():
+    out = []
+    calls = {"Select": "(lambda e: e.a)", "SelectMany": "(lambda e: e.js)", "Where": "(lambda e: e.a > 1)", "First": "()", "Count": "()",
+             "Sum": "()", "Max": "()", "Min": "()", "Aggregate": "(0, lambda a, v: a + v)", "ResultTTree": "(['c'], 't', 'f')",
+             "ResultAwkwardArray": "(['c'])", "ResultPandasDF": "(['c'])"}
+    for r in RECEIVERS:
+        for op, args in calls.items():
+            out.append(f"{r}.{op}{args}")
+            out.append(f"{r}.{op}{args}.Count()")
+            out.append(f"g({r}.{op}{args}, 1)")
+    return out
 
 
 CHECK = C17()
